@@ -19,6 +19,15 @@ def pandera_frame_of(exc):
     return where or "outside-pandera"
 
 
+def raised_in_user_callback(exc):
+    """True when the exception was raised at or below a harness frame (a user callback such as a
+    Parser function) that pandera called: the exception is the user's own, not pandera's."""
+    tb = traceback.extract_tb(exc.__traceback__)
+    last_pandera = max((i for i, fr in enumerate(tb) if "/pandera/" in fr.filename and "/site-packages/" not in fr.filename), default=-1)
+    last_user = max((i for i, fr in enumerate(tb) if fr.filename.startswith("/verif/mc/spec/")), default=-1)
+    return last_user > last_pandera >= 0
+
+
 CORE_IDS = [
     ("dtype(", "dtype"), ("not_nullable", "not_nullable"), ("field_uniqueness", "field_uniqueness"),
     ("field_name(", "field_name"), ("column_in_dataframe", "column_in_dataframe"),
@@ -129,7 +138,7 @@ def validate_pandas(spec, table, lazy=False, schema=None, data=None, **opts):
     except (pa.errors.SchemaDefinitionError, pa.errors.SchemaInitError) as exc:
         out["outcome"] = type(exc).__name__
     except Exception as exc:  # noqa
-        out["outcome"] = "leak"
+        out["outcome"] = "user_callback_exception" if raised_in_user_callback(exc) else "leak"
         out["exc"] = type(exc).__name__
         out["where"] = pandera_frame_of(exc)
         out["msg"] = str(exc)[:300]
